@@ -553,6 +553,11 @@ func (e *Engine) runBlock(fr *frame, b *ssa.BasicBlock, st *State) {
 			if !known && cv != nil && len(cv.B) == 1 && (cv.B[0].K == BSrc || cv.B[0].K == BNot) {
 				ts.conds = append(ts.conds, cv.B[0])
 				fs.conds = append(fs.conds, bitNot(cv.B[0]))
+			} else if !known && cv != nil && cv.Cmp != nil {
+				// a comparison of a whole source with a constant, as a named pseudo-bit
+				pb := Bit{K: BSrc, Src: fmt.Sprintf("cmp:%s%s%d", cv.Cmp.Src, cv.Cmp.Op, cv.Cmp.C)}
+				ts.conds = append(ts.conds, pb)
+				fs.conds = append(fs.conds, bitNot(pb))
 			}
 			fr.setOut(b, b.Succs[0], ts)
 			fr.setOut(b, b.Succs[1], fs)
